@@ -53,11 +53,12 @@ PsfVerdict(r) ==
   LET c == PsfCall(r)
       got == [e \in 1 .. Len(r.ret.fx) |-> Tup(r.ret.fx[e])]
   IN IF ~PsfDefined(c) THEN "undefined"
-     ELSE IF r.ret.err THEN (IF Dev_RowColOrdersSwapped(c) THEN "D-X03-2: " ELSE "") \o "raised " \o r.ret.exc
+     ELSE IF r.ret.err THEN (IF Dev_ExplainsError(c, r.ret.exc) # "" THEN Dev_ExplainsError(c, r.ret.exc) \o ": " ELSE "")
+                            \o "raised " \o r.ret.exc
      ELSE IF Tup(r.ret.shape) # OutShape(c) THEN "shape"
      ELSE LET v == PsfJudge(c, got)
           IN IF v = "" THEN ""
-             ELSE IF Dev_Explains(c, got) # "" THEN Dev_Explains(c, got) \o ": " \o v
+             ELSE IF Dev_ExplainsValue(c, got) # "" THEN Dev_ExplainsValue(c, got) \o ": " \o v
              ELSE v
 
 Verdict(r) == IF r.fn = "psf" THEN PsfVerdict(r) ELSE RgbVerdict(r)
